@@ -390,15 +390,11 @@ func (c *ctx) perturb() (string, string) {
 			}
 			setSeq(last, lt[:8], seqOf(lt)+r.Range(1, 900), fix)
 			return g, v.kind + "/last-raised" + fx
-		case 5:
-			// fewer than 15 columns: ODFI followed by a short sequence, last entry only
-			last := v.entries[len(v.entries)-1]
-			lt := padLeft(*last.trace, 15)
-			*last.trace = lt[:8] + strconv.Itoa(r.Range(1, 9))
-			return g, v.kind + "/short-sequence-on-last"
 		default:
-			*e.trace = tr[8:]
-			return g, v.kind + "/sequence-only"
+			// Trace numbers of fewer than 15 columns ("ODFI + short sequence", "sequence only") are not perturbed:
+			// the library compares the raw TraceNumber strings, on which the property's clause (ascending, begins
+			// with the ODFI) is satisfied; what such values render to is a C01 matter, not a C03 one.
+			return "", ""
 		}
 	case "odfi":
 		p := randDigits(r, 8)
